@@ -109,6 +109,12 @@ def guards_of(node, flags, subject=None):
                     ok = True       # availability flag of a wrapper module (pyrex.custom.pyspice.__available__)
             if ok and in_body:
                 out.append(("if", p))
+            # the other arm of `if hasattr(M, 'new'): ... else: <M.old>` runs exactly on the versions of M that lack `new`: it is the
+            # fallback of an availability test on the same module, like the handler of `try: from M import new / except ImportError`
+            if not in_body and isinstance(p, ast.If) and child in p.orelse and alias is not None and isinstance(test, ast.Call) \
+                    and ast.unparse(test.func) == "hasattr" and len(test.args) == 2 and isinstance(test.args[1], ast.Constant) \
+                    and ast.unparse(test.args[0]).split(".")[0] == alias and test.args[1].value != attr:
+                out.append(("if-fallback", p))
         child, p = p, parent(p)
     return out
 
@@ -313,6 +319,9 @@ def run(ctx):
             rec["nodes"].append(outer)
             if err:
                 g = guards_of(outer, flags, (root.id, full[k] if k < len(full) else None, mod.split(".")[0]))
+                # a fallback arm only counts when the arm it falls back from resolves with this install (so the fallback never runs here)
+                g = [(kind, nd) for kind, nd in g if kind != "if-fallback"
+                     or not resolve(mod, ([first] if first else []) + [nd.test.args[1].value])[1]]
                 gi = guards_of(impnode, flags, (None, None, mod.split(".")[0]))
                 if g or gi:
                     rec["guarded"] += 1
@@ -465,6 +474,9 @@ def r20e(ctx, mname, tree, local):
 
 SELFTEST = {
     "faults": [
+        {"name": "removed numpy function in the fallback arm of a test for a name that does not exist either", "file": "pyrex/internal_functions.py",
+         "old": "try:\n    from numpy import trapezoid as trapz\nexcept ImportError:\n    from numpy import trapz\n",
+         "new": "if hasattr(np, 'trapezoidal'):\n    trapz = np.trapezoidal\nelse:\n    trapz = np.trapz\n", "rule": "R20a"},
         {"name": "removed stdlib function under an unrelated hasattr guard", "file": "pyrex/detector.py", "old": "                        sig = inspect.signature(sub.build_antennas)\n                        keys = sig.parameters.keys()",
          "new": "                        sig = inspect.getargspec(sub.build_antennas)\n                        keys = sig.args", "rule": "R20a"},
         {"name": "helper renamed in internal_functions, one custom import site forgotten", "file": "pyrex/internal_functions.py", "old": "def normalize(vector):", "new": "def normalise(vector):",
@@ -478,6 +490,9 @@ SELFTEST = {
          "rule": "R20a", "construct": "antenna"},
     ],
     "benign": [
+        {"name": "availability test with a fallback arm instead of try/except ImportError", "file": "pyrex/internal_functions.py",
+         "old": "try:\n    from numpy import trapezoid as trapz\nexcept ImportError:\n    from numpy import trapz\n",
+         "new": "if hasattr(np, 'trapezoid'):\n    trapz = np.trapezoid\nelse:\n    trapz = np.trapz\n"},
         {"name": "alias rename", "file": "pyrex/earth_model.py", "old": "import numpy as np\n", "new": "import numpy as np\nimport numpy as _np2\n"},
     ],
 }
